@@ -54,7 +54,7 @@ func (app *EVMApp) VerifEvictOnce() {
 	tp.Lock()
 	for addr := range tp.waitingBeats {
 		if time.Since(tp.waitingBeats[addr]) > tp.waitingLifeTime {
-			if tp.waiting[addr].Get(tp.safeGetNonce(addr)) != nil {
+			if tp.waiting[addr].Get(tp.unSafeGetPendingMaxNonce(addr)) != nil {
 				continue
 			}
 			for _, tx := range tp.waiting[addr].Flatten() {
